@@ -52,6 +52,12 @@ func thesaurusQueries(c *ctx, seg segment.Segment, spec sx.V) (bad string) {
 	if !ok {
 		return "segment does not implement ThesaurusSegment"
 	}
+	// every thesaurus is opened before any is queried (the reader keeps per-thesaurus state in one cache)
+	for _, t := range spec.L[pThes].L {
+		if _, err := ts.Thesaurus(string(t.L[0].B)); err != nil {
+			return "Thesaurus(" + string(t.L[0].B) + ") error " + err.Error()
+		}
+	}
 	for _, t := range spec.L[pThes].L {
 		name := string(t.L[0].B)
 		docs := map[uint64]bool{}
